@@ -24,7 +24,10 @@ def split_messages(data: bytes) -> list[tuple[int, bytes]]:
     return out
 
 
-def _prefixes(data: bytes, afi: int, addpath: bool) -> list[tuple]:
+LABELS: dict = {}     # key -> label stack (bytes) of the labeled NLRI (RFC 8277) seen last for that key: payload, not identity
+
+
+def _prefixes(data: bytes, afi: int, addpath: bool, safi: int = 1) -> list[tuple]:
     out = []
     i = 0
     while i < len(data):
@@ -34,8 +37,20 @@ def _prefixes(data: bytes, afi: int, addpath: bool) -> list[tuple]:
             i += 4
         bits = data[i]
         i += 1
+        labels = b''
+        if safi == 4:
+            while bits >= 24:           # 3 octets per label, up to the bottom-of-stack bit (or the withdraw label 0x800000)
+                lab = bytes(data[i : i + 3])
+                labels += lab
+                i += 3
+                bits -= 24
+                if lab[2] & 1 or lab in (b'\x80\x00\x00', b'\x00\x00\x00'):
+                    break
         n = (bits + 7) // 8
-        out.append((afi, 1, pid, bits, bytes(data[i : i + n])))
+        key = (afi, 1, pid, bits, bytes(data[i : i + n]))
+        if safi == 4:
+            LABELS[(afi, safi) + key[2:]] = labels
+        out.append(key)
         i += n
     return out
 
@@ -67,14 +82,14 @@ def decode_update(body: bytes, addpath: dict | None = None) -> dict:
             nh = val[4 : 4 + nhl]
             rest = val[4 + nhl + 1 :]
             res['mp_nexthop'] = nh
-            for p in _prefixes(rest, afi, addpath.get((afi, safi), False)):
+            for p in _prefixes(rest, afi, addpath.get((afi, safi), False), safi):
                 res['announce'].append((afi, safi) + p[2:])
         elif code == 15:
             afi, safi = struct.unpack('!HB', val[:3])
             rest = val[3:]
             if not rest:
                 res['eor'] = (afi, safi)
-            for p in _prefixes(rest, afi, addpath.get((afi, safi), False)):
+            for p in _prefixes(rest, afi, addpath.get((afi, safi), False), safi):
                 res['withdraw'].append((afi, safi) + p[2:])
         else:
             if code == 3:
@@ -90,4 +105,7 @@ def attr_signature(dec: dict) -> tuple:
     """Canonical, order-free signature of the path attributes + next hop of a decoded UPDATE."""
     items = tuple(sorted((c, f, v.hex()) for c, (f, v) in dec['attrs'].items()))
     nh = dec['mp_nexthop'].hex() if dec['mp_nexthop'] is not None else None
+    labeled = [k for k in dec['announce'] if k[1] == 4]
+    if labeled:                     # the label stack of a labeled route is part of what was announced for the key
+        return (items, nh, LABELS.get(labeled[0], b'').hex())
     return (items, nh)
